@@ -42,8 +42,9 @@ Ctx(name) ==
   ELSE IF name = "flowkey" THEN [name |-> name, key |-> TRUE, flow |-> TRUE, n |-> -1]
   ELSE IF name = "flowvalue" THEN [name |-> name, key |-> FALSE, flow |-> TRUE, n |-> -1]
   ELSE IF name = "nestedvalue" THEN [name |-> name, key |-> FALSE, flow |-> FALSE, n |-> 2]
+  ELSE IF name = "afterblank" THEN [name |-> name, key |-> FALSE, flow |-> FALSE, n |-> 0]       \* a sequence entry after a plain scalar and an empty line
   ELSE [name |-> "explicitkey", key |-> FALSE, flow |-> FALSE, n |-> 0]
-CtxNames == {"top", "blockkey", "blockvalue", "seqentry", "flowseq", "flowkey", "flowvalue", "nestedvalue", "explicitkey"}
+CtxNames == {"top", "blockkey", "blockvalue", "seqentry", "flowseq", "flowkey", "flowvalue", "nestedvalue", "explicitkey", "afterblank"}
 
 \* text around the scalar and the events of the whole stream, given the scalar's presentation and event
 E_(k, v, style) == [k |-> k, v |-> v, style |-> style, aid |-> 0, tag |-> <<>>]
@@ -59,6 +60,7 @@ Wrap(ctxname, pres, ev) ==
      ELSE IF ctxname = "flowseq" THEN [txt |-> <<"[">> \o pres \o <<",", " ", "x", "]", "\n">>, evs |-> <<SS, DS, QS, ev, X, QE, DE, SE>>]
      ELSE IF ctxname = "flowkey" THEN [txt |-> <<"{">> \o pres \o <<":", " ", "v", "}", "\n">>, evs |-> <<SS, DS, MS, ev, V, ME, DE, SE>>]
      ELSE IF ctxname = "flowvalue" THEN [txt |-> <<"{", "k", ":", " ">> \o pres \o <<"}", "\n">>, evs |-> <<SS, DS, MS, K, ev, ME, DE, SE>>]
+     ELSE IF ctxname = "afterblank" THEN [txt |-> <<"-", " ", "x", "\n", "\n", "-", " ">> \o pres \o <<"\n">>, evs |-> <<SS, DS, QS, X, ev, QE, DE, SE>>]
      ELSE IF ctxname = "nestedvalue" THEN [txt |-> <<"k", ":", "\n", " ", " ", "j", ":", " ">> \o pres \o <<"\n">>, evs |-> <<SS, DS, MS, K, MS, PlainEv(<<"j">>), ev, ME, ME, DE, SE>>]
      ELSE [txt |-> <<"?", " ">> \o pres \o <<"\n", ":", " ", "v", "\n">>, evs |-> <<SS, DS, MS, ev, V, ME, DE, SE>>]
 
